@@ -5,6 +5,16 @@ from engine.woodlint.db import Unrecognised
 ATOMIC_PREFIX = 'std::sync::atomic::Atomic'
 
 
+def ordering_variant(o):
+    """Ordering::X written in place (an aggregate) or through a named constant evaluated at compile time."""
+    o = o.strip()
+    if o.kind == 'agg' and 'Ordering' in o.info.get('name', ''):
+        return o.info.get('variant')
+    if o.kind == 'const' and 'atomic::Ordering' in (o.info.get('ty') or ''):
+        return o.info.get('variant')
+    return None
+
+
 class ABT:
     def __init__(self, cx):
         prog = cx.prog
@@ -84,9 +94,7 @@ class ABT:
         if cs.nargs() == 0:
             return None
         o = cs.arg(cs.nargs() - 1).strip()
-        if o.kind == 'agg' and 'Ordering' in o.info.get('name', ''):
-            return o.info.get('variant')
-        return None
+        return ordering_variant(o)
 
     def is_seq_load(self, e):
         e = e.strip()
@@ -105,7 +113,7 @@ class ABT:
         r = f.local_expr(0, []).strip()
         if r.kind == 'call' and r.op.startswith(ATOMIC_PREFIX) and r.op.endswith('::load') and is_param_field(r.args[0], self.seq):
             o = r.args[-1].strip()
-            return f, (o.info.get('variant') if o.kind == 'agg' else None)
+            return f, ordering_variant(o)
         return None
 
     def seq_load_ordering(self, e):
@@ -115,7 +123,7 @@ class ABT:
             return w[1]
         if e.kind == 'call' and e.args:
             o = e.args[-1].strip()
-            return o.info.get('variant') if o.kind == 'agg' else None
+            return ordering_variant(o)
         return None
 
     def slot_index_expr(self, e):
